@@ -42,6 +42,20 @@
 (* named Fix...: FALSE = what the code does.  Bug seeds a defect           *)
 (* (detection power).  Writes to a connection never block (a client that   *)
 (* stops reading without disconnecting is outside the model).              *)
+(*                                                                         *)
+(* Three ways of running it (spec/cfg/GluonLocks.*.cfg):                   *)
+(*  - exhaustive, every step separate (Coarse = FALSE): one session;       *)
+(*  - exhaustive, several sessions (Coarse = TRUE): critical sections      *)
+(*    without other shared operations are one step;                        *)
+(*  - trace validation (GluonLocksTrace.tla: Labels, FreeSections,         *)
+(*    OpenEnv): every step carries the label of its hook event, handlers   *)
+(*    and the update loop run any sequence of db sections, and what        *)
+(*    clients / connector / listener do is left open.                      *)
+(* Properties: TLC's deadlock check (Terminated is the only legitimate     *)
+(* end), LockOrder, OnlyOwner, StatesCounted, NoUseAfterDbClose,           *)
+(* DbClosedMeansNoStates, NoGoroutineLeft, and under weak fairness         *)
+(* CloseReturns, RemoveUserReturns, EveryCommandCompletes,                 *)
+(* NothingLeftEventually.                                                  *)
 (***************************************************************************)
 EXTENDS Integers, Sequences, FiniteSets, TLC
 
@@ -694,7 +708,9 @@ StartClose ==
   /\ UNCHANGED lk /\ UNCHANGED rest
 
 StartRemove(u) ==
-  /\ u \in Removable /\ pc[Rem(u)] = "idle" /\ Go(Rem(u), "X.ul") /\ SetLab(Rem(u), "call", "RemoveUser")
+  \* (OpenEnv: the application may call RemoveUser for the same user again once the earlier call returned)
+  /\ u \in Removable /\ (pc[Rem(u)] = "idle" \/ (OpenEnv /\ pc[Rem(u)] = "end"))
+  /\ Go(Rem(u), "X.ul") /\ SetLab(Rem(u), "call", "RemoveUser")
   /\ UNCHANGED lk /\ UNCHANGED rest
 
 CancelCtx ==           \* the application cancels the context it gave to Server.Serve
